@@ -249,14 +249,70 @@ impl Prog {
                 Self::decode_respell(t, &atoms, &mut ins);
                 continue;
             }
+            // now and then: two loops over the very same body with different ranges, combined
+            // (range arithmetic in the constructors: joins, intersections, flattening)
+            if n + 5 <= cfg.max_ins && t.bool_p(20) {
+                Self::decode_loop_pair(t, &atoms, cfg, &mut ins);
+                continue;
+            }
             let i = Self::decode_ins(t, &atoms, cfg, big, n);
             ins.push(i);
         }
         Prog { atoms, ins }
     }
 
+    /// body^[r1] and body^[r2] (same body term, different ranges, finite or unbounded) combined by
+    /// union / intersection / difference / concatenation; the body is an earlier slot or a fresh small
+    /// term whose words may have different lengths
+    fn decode_loop_pair(t: &mut Tape, atoms: &Atoms, cfg: &ProgCfg, ins: &mut Vec<Ins>) {
+        let body = if !ins.is_empty() && t.flag() {
+            pick_slot(t, ins.len())
+        } else {
+            let c1 = atoms.pick_landmark(t);
+            match t.choose(4) {
+                0 => ins.push(Ins::Char(c1)),
+                1 => ins.push(Ins::Str(vec![c1, atoms.pick_landmark(t)])),
+                2 => {
+                    // c | cc : the number of iterations is not determined by the word
+                    ins.push(Ins::Str(vec![c1]));
+                    let a = ins.len() - 1;
+                    ins.push(Ins::Str(vec![c1, c1]));
+                    let b = ins.len() - 1;
+                    ins.push(Ins::Union(a, b));
+                }
+                _ => {
+                    ins.push(Ins::Char(c1));
+                    let a = ins.len() - 1;
+                    ins.push(Ins::Opt(a));
+                }
+            }
+            ins.len() - 1
+        };
+        let range = |t: &mut Tape| -> (u32, Option<u32>) {
+            let lo = t.u32_in(0, cfg.small_bound);
+            if t.bool_p(90) {
+                (lo, None)
+            } else {
+                (lo, Some(lo + t.u32_in(0, 2)))
+            }
+        };
+        let (l1, h1) = range(t);
+        let (l2, h2) = range(t);
+        ins.push(Ins::MkLoop(body, l1, h1));
+        let a = ins.len() - 1;
+        ins.push(Ins::MkLoop(body, l2, h2));
+        let b = ins.len() - 1;
+        ins.push(match t.choose(5) {
+            0 => Ins::Union(a, b),
+            1 => Ins::Inter(a, b),
+            2 => Ins::Diff(a, b),
+            3 => Ins::Concat(a, b),
+            _ => Ins::Union(b, a),
+        });
+    }
+
     /// a word w = u^k (+ tail) spelled as str(w) and in another way, then combined
-    fn decode_respell(t: &mut Tape, atoms: &Atoms, ins: &mut Vec<Ins>) {
+    pub fn decode_respell(t: &mut Tape, atoms: &Atoms, ins: &mut Vec<Ins>) {
         let ulen = 1 + t.choose(2);
         let u: Vec<u32> = (0..ulen).map(|_| atoms.pick_landmark(t)).collect();
         let k = 2 + t.choose(2);
